@@ -128,6 +128,38 @@ func (q *searcher) checkPending(op string) {
 	}
 }
 
+// checkRecords: the executed records are exactly the transactions with a receipt on the current chain
+// (the refinement invariant `history_refines`, as a run-time oracle): a record for a transaction whose block
+// was removed (or never existed) blocks its re-submission for good, a missing one lets it in twice.
+func (q *searcher) checkRecords(op string) {
+	q.evals++
+	w := q.s.w
+	pend := map[common.Hash]bool{}
+	for _, t := range w.pool.GetReceived() {
+		pend[t.Hash] = true
+	}
+	for _, id := range q.s.all {
+		tx, ok := w.txs[id]
+		if !ok {
+			continue
+		}
+		has := w.pool.IsExisted(tx.Hash) && !pend[tx.Hash]
+		if has && pend[tx.Hash] {
+			continue
+		}
+		rec := w.pool.IsExisted(tx.Hash) && (!pend[tx.Hash] || w.pool.GetExecuted(tx.Hash) != nil)
+		if rec && !pend[tx.Hash] && q.onChain[tx.Hash] == 0 {
+			q.report("executed-record-stale", fmt.Sprintf("after %s: %s has an executed record but no receipt on the current chain", op, tx.Hash.String()))
+		}
+		if pend[tx.Hash] && w.pool.GetExecuted(tx.Hash) != nil {
+			q.report("executed-record-stale", fmt.Sprintf("after %s: %s is pending and has an executed record (its block is not on the chain: %v)", op, tx.Hash.String(), q.onChain[tx.Hash] == 0))
+		}
+		if q.onChain[tx.Hash] > 0 && !w.pool.IsExisted(tx.Hash) {
+			q.report("executed-record-missing", fmt.Sprintf("after %s: %s has a receipt on the chain but no executed record", op, tx.Hash.String()))
+		}
+	}
+}
+
 func (q *searcher) checkPack(p []*types.Transaction) {
 	q.evals++
 	w := q.s.w
@@ -228,6 +260,7 @@ func (q *searcher) opMark(b block) bool {
 		}
 	}
 	q.checkPending("mark")
+	q.checkRecords("mark")
 	return true
 }
 
@@ -263,6 +296,7 @@ func (q *searcher) opUnmark(b block) {
 		}
 	}
 	q.checkPending("unmark")
+	q.checkRecords("unmark")
 }
 
 func (q *searcher) history(nops int, limit int) {
